@@ -244,18 +244,33 @@ pub fn run(seed: u64, n_docs: u64, n_maps: u64, n_par: u64) -> BulkResult {
                     extended.pin().insert(*k, *v);
                 }
                 extended.par_extend(items.clone().into_par_iter());
+                // owned targets that are empty but already allocated: presized, and emptied again
+                let mut presized: HashMap<u32, u32> = HashMap::with_capacity(1 + (items.len() % 50));
+                presized.par_extend(items.clone().into_par_iter());
+                let mut emptied: HashMap<u32, u32> = HashMap::new();
+                emptied.pin().insert(7, 7);
+                emptied.pin().remove(&7);
+                emptied.par_extend(items.clone().into_par_iter());
+                let mut cleared: HashMap<u32, u32> = HashMap::new();
+                for (k, v) in &old {
+                    cleared.pin().insert(*k, *v);
+                }
+                cleared.pin().clear();
+                cleared.par_extend(items.clone().into_par_iter());
+                let mut pset: HashSet<u32> = HashSet::with_capacity(9);
+                pset.par_extend(items.iter().map(|x| x.0).collect::<Vec<_>>().into_par_iter());
                 let by_ref: HashMap<u32, u32> = HashMap::new();
                 (&by_ref).par_extend(items.clone().into_par_iter());
                 by_ref.pin().par_extend(items.clone().into_par_iter());
                 let cset: HashSet<u32> = items.iter().map(|x| x.0).collect::<Vec<_>>().into_par_iter().collect();
                 let mut eset: HashSet<u32> = HashSet::new();
                 eset.par_extend(items.iter().map(|x| x.0).collect::<Vec<_>>().into_par_iter());
-                (collected, extended, by_ref, cset, eset)
+                (collected, extended, by_ref, cset, eset, presized, emptied, cleared, pset)
             })
         }));
         match res {
             Err(_) => r.failures.push(format!("parallel collect/extend panicked (threads {})", threads)),
-            Ok((collected, extended, by_ref, cset, eset)) => {
+            Ok((collected, extended, by_ref, cset, eset, presized, emptied, cleared, pset)) => {
                 let check = |name: &str, m: &HashMap<u32, u32>, extra: &[(u32, u32)], fails: &mut Vec<String>| {
                     let g = m.guard();
                     let got: BTreeMap<u32, u32> = m.iter(&g).map(|(k, v)| (*k, *v)).collect();
@@ -280,7 +295,10 @@ pub fn run(seed: u64, n_docs: u64, n_maps: u64, n_par: u64) -> BulkResult {
                 check("from_par_iter", &collected, &[], &mut r.failures);
                 check("par_extend", &extended, &old, &mut r.failures);
                 check("par_extend(&map / pin)", &by_ref, &[], &mut r.failures);
-                for (name, s) in [("set from_par_iter", &cset), ("set par_extend", &eset)] {
+                check("par_extend onto a presized empty map", &presized, &[], &mut r.failures);
+                check("par_extend onto a map emptied by remove", &emptied, &[], &mut r.failures);
+                check("par_extend onto a cleared map", &cleared, &[], &mut r.failures);
+                for (name, s) in [("set from_par_iter", &cset), ("set par_extend", &eset), ("set par_extend onto a presized set", &pset)] {
                     let g = s.guard();
                     let got: BTreeSet<u32> = s.iter(&g).cloned().collect();
                     if got != supplied.keys().cloned().collect::<BTreeSet<_>>() {
